@@ -185,6 +185,7 @@ struct State {
     shadow: BTreeMap<String, (Vec<usize>, Vec<Float>)>,
     layers: BTreeMap<String, LayerBox>,
     models: BTreeMap<String, ModelBox>,
+    optimizers: BTreeMap<String, GradientDescent>,
 }
 
 impl State {
@@ -554,6 +555,34 @@ fn exec(ctx: &Ctx, st: &mut State, toks: &[&str]) -> String {
                 st.bind(n, a);
             }
             format!("params {}", parts.join(" ; "))
+        }
+        ["gd", g, lr] => {
+            st.optimizers.insert(g.to_string(), GradientDescent::new(ctx.parse(lr)));
+            "ok".into()
+        }
+        ["gdstep", g, vs] => {
+            let names = parse_names(vs);
+            let mut arrays: Vec<Array> = names.iter().map(|n| st.unbind(n)).collect();
+            st.optimizers.get(*g).expect("unknown optimizer").update(arrays.iter_mut().collect());
+            let parts: Vec<String> = arrays
+                .iter()
+                .map(|p| format!("{} g={}", ctx.render_a(p), ctx.render_oa(&p.gradient())))
+                .collect();
+            for (n, a) in names.iter().zip(arrays) {
+                st.bind(n, a);
+            }
+            format!("params {}", parts.join(" ; "))
+        }
+        ["cost", w, c, o, t] => {
+            let cf: CostFunction = match *c {
+                "mse" => cost::mse(),
+                "xent" => cost::cross_entropy(),
+                _ => panic!("bad cost"),
+            };
+            let r = cf(st.get(o), st.get(t));
+            let out = show(&r);
+            st.bind(w, r);
+            out
         }
         ["dense", l, i, o, act, w, b] => {
             let mut vals = ctx.parse_list(w);
